@@ -6,6 +6,8 @@ import (
 	"fmt"
 	"io"
 	"os"
+
+	"github.com/douban/gobeansdb/vhook"
 )
 
 const (
@@ -143,6 +145,8 @@ func newHintFileWriter(path string, maxOffset uint32, bufsize int) (w *hintFileW
 	var fd *os.File
 	tmp := path + ".tmp"
 	logger.Infof("create hint file: %s", tmp)
+	vhook.FS(vhook.Before, "create", tmp, 0, 0)
+	defer vhook.FS(vhook.After, "create", tmp, 0, 0)
 	fd, err = os.Create(tmp)
 	if err != nil {
 		logger.Errorf(err.Error())
@@ -201,6 +205,8 @@ func (w *hintFileWriter) close() error {
 	w.fd.Write(buf[:])
 	w.fd.Close()
 	tmp := w.path + ".tmp"
+	vhook.FS(vhook.Before, "rename", w.path, 0, 0)
+	defer vhook.FS(vhook.After, "rename", w.path, 0, 0)
 	err := os.Rename(tmp, w.path)
 	if err != nil {
 		return err
